@@ -100,6 +100,21 @@ func DecodePureDKG(data []byte) (*puredkg.PureDKG, error) {
 	if err != nil {
 		return nil, err
 	}
+	// gob does not preserve nil entries of the Commitments and Evals slices: a commitment or
+	// poly eval that has not been received yet (nil) is encoded via GobEncode as an empty value
+	// and comes back as a non-nil empty Gammas resp. a non-nil zero big.Int. PureDKG would then
+	// refuse the real message as a duplicate. A genuine commitment always has at least one
+	// element, and treating a zero eval as missing is harmless, so restore the nil entries.
+	for i, c := range p.Commitments {
+		if c != nil && len(*c) == 0 {
+			p.Commitments[i] = nil
+		}
+	}
+	for i, e := range p.Evals {
+		if e != nil && e.Sign() == 0 {
+			p.Evals[i] = nil
+		}
+	}
 	return p, nil
 }
 
